@@ -49,6 +49,10 @@ def run_case(case) -> Dict:
     if case["old"] not in text:
         return {**case, "result": "stale"}
     new = text.replace(case["old"], case["new"], case.get("count", 1))
+    for old2, new2 in case.get("also", ()):  # further edits of the same file that belong to the same change
+        if old2 not in new:
+            return {**case, "result": "stale"}
+        new = new.replace(old2, new2, 1)
     base, err0 = failing_keys(case["prop"], None)
     got, err = failing_keys(case["prop"], {path: new})
     fresh = got - base
@@ -64,18 +68,238 @@ def run_case(case) -> Dict:
     return res
 
 
+def _reformat_overlay() -> Dict[str, str]:
+    """every source file re-printed from its syntax tree: layout, comments, quoting and parenthesisation change, behaviour does not"""
+    import ast
+
+    out = {}
+    for dp, _dn, fn in os.walk(os.path.join(SRC, "krrood")):
+        for f in fn:
+            if f.endswith(".py"):
+                p = os.path.join(dp, f)
+                with open(p) as fh:
+                    out[p] = ast.unparse(ast.parse(fh.read()))
+    return out
+
+
+import ast
+
+
+class Renamer(ast.NodeTransformer):
+    """rename function-local variables x -> x_r consistently (params, globals, attributes untouched)"""
+    def __init__(self): self.stack=[]
+    def _locals(self, fn):
+        params={a.arg for a in fn.args.posonlyargs+fn.args.args+fn.args.kwonlyargs}
+        if fn.args.vararg: params.add(fn.args.vararg.arg)
+        if fn.args.kwarg: params.add(fn.args.kwarg.arg)
+        declared=set(); stores=set()
+        def walk(n, top=True):
+            for ch in ast.iter_child_nodes(n):
+                if isinstance(ch,(ast.FunctionDef,ast.AsyncFunctionDef,ast.Lambda,ast.ClassDef)):
+                    if isinstance(ch,(ast.FunctionDef,ast.AsyncFunctionDef,ast.ClassDef)): stores.add(('def',ch.name))
+                    continue
+                if isinstance(ch,(ast.Global,ast.Nonlocal)): declared.update(ch.names)
+                if isinstance(ch,ast.Name) and isinstance(ch.ctx,(ast.Store,ast.Del)): stores.add(ch.id)
+                if isinstance(ch, ast.ExceptHandler) and ch.name: stores.add(('exc',ch.name))
+                walk(ch)
+        walk(fn)
+        names={s for s in stores if isinstance(s,str)}
+        excl={s[1] for s in stores if not isinstance(s,str)}
+        return names-params-declared-excl, params
+    def visit_FunctionDef(self, node):
+        loc, params = self._locals(node)
+        # names of enclosing renames that this function rebinds as params are masked
+        self.stack.append((loc, params))
+        node.body=[self.visit(b) for b in node.body]
+        node.decorator_list=node.decorator_list
+        self.stack.pop()
+        return node
+    visit_AsyncFunctionDef=visit_FunctionDef
+    def visit_Lambda(self,node):
+        params={a.arg for a in node.args.args+node.args.kwonlyargs+node.args.posonlyargs}
+        self.stack.append((set(),params))
+        node.body=self.visit(node.body)
+        self.stack.pop()
+        return node
+    def visit_ClassDef(self,node):
+        # class body names are attributes: only descend into methods with a fresh context
+        saved=self.stack; self.stack=[]
+        node.body=[self.visit(b) for b in node.body]
+        self.stack=saved
+        return node
+    def visit_Name(self,node):
+        for loc,params in reversed(self.stack):
+            if node.id in params: return node
+            if node.id in loc:
+                node.id=node.id+'_r'; return node
+        return node
+
+
+
+def _alpha_overlay() -> Dict[str, str]:
+    """every function-local variable renamed (x -> x_r) in the whole tree: rules must not hang on the names of locals"""
+    out = {}
+    for dp, _dn, fn in os.walk(os.path.join(SRC, "krrood")):
+        for f in fn:
+            if f.endswith(".py"):
+                p = os.path.join(dp, f)
+                with open(p) as fh:
+                    t = Renamer().visit(ast.parse(fh.read()))
+                ast.fix_missing_locations(t)
+                out[p] = ast.unparse(t)
+    return out
+
+
+class Swap(ast.NodeTransformer):
+    """if c: A else: B  ->  if not c: B else: A   (only for plain if/else without elif chains)"""
+    def visit_If(self,node):
+        self.generic_visit(node)
+        if node.orelse and not (len(node.orelse)==1 and isinstance(node.orelse[0],ast.If)):
+            t=node.test
+            nt = t.operand if isinstance(t,ast.UnaryOp) and isinstance(t.op,ast.Not) else ast.UnaryOp(op=ast.Not(),operand=t)
+            return ast.If(test=nt, body=node.orelse, orelse=node.body)
+        return node
+
+
+class RetVar(ast.NodeTransformer):
+    """return EXPR -> result_value = EXPR; return result_value   (non-trivial EXPR only, not in lambdas / generators' bare return)"""
+    def _block(self, stmts):
+        out=[]
+        for st in stmts:
+            st=self.visit(st)
+            if isinstance(st,ast.Return) and st.value is not None and not isinstance(st.value,(ast.Name,ast.Constant)):
+                out.append(ast.Assign(targets=[ast.Name(id='result_value',ctx=ast.Store())],value=st.value))
+                out.append(ast.Return(value=ast.Name(id='result_value',ctx=ast.Load())))
+            else: out.append(st)
+        return out
+    def generic_visit(self,node):
+        for fld in ('body','orelse','finalbody'):
+            v=getattr(node,fld,None)
+            if isinstance(v,list) and v and isinstance(v[0],ast.stmt):
+                setattr(node,fld,self._block(v))
+        if hasattr(node,'handlers'):
+            for h in node.handlers: h.body=self._block(h.body)
+        if isinstance(node, ast.Match):
+            for c in node.cases: c.body=self._block(c.body)
+        return node
+
+
+class ElseAfterJump(ast.NodeTransformer):
+    """if c: ...; return/raise/continue/break   <rest of block>   ->   if c: ... jump  else: <rest of block>"""
+    def _block(self, stmts):
+        for i, st in enumerate(stmts):
+            if isinstance(st, ast.If) and not st.orelse and st.body and isinstance(st.body[-1], (ast.Return, ast.Raise, ast.Continue, ast.Break)) and i + 1 < len(stmts):
+                st.orelse = self._block(stmts[i+1:])
+                return stmts[:i+1]
+        return stmts
+    def generic_visit(self, node):
+        super().generic_visit(node)
+        for fld in ('body','orelse','finalbody'):
+            v=getattr(node,fld,None)
+            if isinstance(v,list) and v and isinstance(v[0],ast.stmt):
+                setattr(node,fld,self._block(v))
+        return node
+class SplitIsinstance(ast.NodeTransformer):
+    """isinstance(x, (A, B)) -> isinstance(x, A) or isinstance(x, B)"""
+    def visit_Call(self,node):
+        self.generic_visit(node)
+        if isinstance(node.func,ast.Name) and node.func.id=='isinstance' and len(node.args)==2 and isinstance(node.args[1],ast.Tuple) and len(node.args[1].elts)>1 and isinstance(node.args[0],(ast.Name,ast.Attribute)):
+            return ast.BoolOp(op=ast.Or(),values=[ast.Call(func=ast.Name(id='isinstance',ctx=ast.Load()),args=[node.args[0],e],keywords=[]) for e in node.args[1].elts])
+        return node
+
+
+class CompToLoop(ast.NodeTransformer):
+    """name = [elt for t in it if c]  ->  name = []; for t in it: if c: name.append(elt)     (single generator, statement level)"""
+    def _block(self, stmts):
+        out=[]
+        for st in stmts:
+            if isinstance(st,ast.Assign) and len(st.targets)==1 and isinstance(st.targets[0],ast.Name) and isinstance(st.value,ast.ListComp) and len(st.value.generators)==1 and not st.value.generators[0].is_async:
+                g=st.value.generators[0]; name=st.targets[0].id
+                used={n.id for n in ast.walk(st.value) if isinstance(n,ast.Name)}
+                if name in used:
+                    out.append(st); continue
+                body=[ast.Expr(ast.Call(func=ast.Attribute(value=ast.Name(id=name,ctx=ast.Load()),attr='append',ctx=ast.Load()),args=[st.value.elt],keywords=[]))]
+                for c in reversed(g.ifs): body=[ast.If(test=c,body=body,orelse=[])]
+                out.append(ast.Assign(targets=[ast.Name(id=name,ctx=ast.Store())],value=ast.List(elts=[],ctx=ast.Load())))
+                out.append(ast.For(target=g.target,iter=g.iter,body=body,orelse=[]))
+            else: out.append(st)
+        return out
+    def generic_visit(self,node):
+        super().generic_visit(node)
+        for fld in ('body','orelse','finalbody'):
+            v=getattr(node,fld,None)
+            if isinstance(v,list) and v and isinstance(v[0],ast.stmt):
+                setattr(node,fld,self._block(v))
+        return node
+class IfExpToIf(ast.NodeTransformer):
+    """name = a if c else b -> if c: name = a else: name = b"""
+    def _block(self, stmts):
+        out=[]
+        for st in stmts:
+            if isinstance(st,ast.Assign) and len(st.targets)==1 and isinstance(st.targets[0],ast.Name) and isinstance(st.value,ast.IfExp):
+                out.append(ast.If(test=st.value.test,body=[ast.Assign(targets=st.targets,value=st.value.body)],orelse=[ast.Assign(targets=[ast.Name(id=st.targets[0].id,ctx=ast.Store())],value=st.value.orelse)]))
+            else: out.append(st)
+        return out
+    def generic_visit(self,node):
+        ast.NodeTransformer.generic_visit(self,node)
+        for fld in ('body','orelse','finalbody'):
+            v=getattr(node,fld,None)
+            if isinstance(v,list) and v and isinstance(v[0],ast.stmt):
+                setattr(node,fld,self._block(v))
+        return node
+
+
+def _transform_overlay(transformer) -> Dict[str, str]:
+    out = {}
+    for dp, _dn, fn in os.walk(os.path.join(SRC, "krrood")):
+        for f in fn:
+            if f.endswith(".py"):
+                p = os.path.join(dp, f)
+                with open(p) as fh:
+                    t = transformer().visit(ast.parse(fh.read()))
+                ast.fix_missing_locations(t)
+                out[p] = ast.unparse(t)
+    return out
+
+
+WHOLE_TREE = {
+    "whole-tree-reformat": _reformat_overlay,
+    "whole-tree-rename-locals": _alpha_overlay,
+    "whole-tree-swap-if-else": lambda: _transform_overlay(Swap),
+    "whole-tree-return-through-local": lambda: _transform_overlay(RetVar),
+    "whole-tree-else-after-jump": lambda: _transform_overlay(ElseAfterJump),
+    "whole-tree-split-isinstance": lambda: _transform_overlay(SplitIsinstance),
+    "whole-tree-comprehension-to-loop": lambda: _transform_overlay(CompToLoop),
+    "whole-tree-conditional-expression-to-if": lambda: _transform_overlay(IfExpToIf),
+}
+
+
+def run_reformat(prop: str, which: str = "whole-tree-reformat") -> Dict:
+    base, err0 = failing_keys(prop, None)
+    got, err = failing_keys(prop, WHOLE_TREE[which]())
+    fresh = got - base
+    return {"id": which, "prop": prop, "kind": "rewrite", "new_failures": sorted(fresh), "analysis_error": err,
+            "result": "silent" if not fresh and not err else "FALSE-ALARM"}
+
+
 def load_cases(prop: Optional[str] = None) -> List[Dict]:
     from .cases import CASES
 
-    return [c for c in CASES if prop is None or c["prop"] == prop]
+    props = sorted({c["prop"] for c in CASES})
+    extra = [dict(prop=q, id=w, kind="reformat") for q in props for w in WHOLE_TREE]
+    return [c for c in CASES + extra if prop is None or c["prop"] == prop]
+
+
+def _dispatch(case) -> Dict:
+    return run_reformat(case["prop"], case["id"]) if case.get("kind") == "reformat" else run_case(case)
 
 
 def run_cases(cases: List[Dict], jobs: int = 0) -> List[Dict]:
     jobs = jobs or min(16, os.cpu_count() or 1, max(1, len(cases)))
     if jobs <= 1 or len(cases) <= 1:
-        return [run_case(c) for c in cases]
+        return [_dispatch(c) for c in cases]
     with ProcessPoolExecutor(max_workers=jobs) as ex:
-        return list(ex.map(run_case, cases))
+        return list(ex.map(_dispatch, cases))
 
 
 def summary(results: List[Dict]) -> Dict:
